@@ -11,15 +11,31 @@
    All theorems quantify over EVERY service (any number of methods, any names, any types), every
    request / response stream (any length) and every handler behaviour.
 
-   PARTIAL: the model treats a request / response stream as a list: it fixes which messages travel and in
-   what order, NOT how sending and receiving interleave in time.  That ServiceStub._stream_stream keeps
-   sending (background task) while the caller consumes responses — needed by conversational callers whose
-   request i+1 depends on response i — is asyncio scheduling; only the harness checks it (ping-pong calls
-   under a watchdog for every stream-stream method).  Likewise what grpclib's transport does (HTTP/2 framing, flow control, deadline arithmetic,
-   cancellation) and asyncio scheduling are not in the model; the model takes from grpclib only
-   "messages of a stream arrive in order, then the trailer status" plus the send-side checks of
-   grpclib.server.Stream that decide which messages/status reach the caller.  The real calls of
-   harness/props/c11.py go through all of it, the theorems do not speak about it.
+   INTERLEAVING.  Model/Grpc.v treats a request / response stream as a list: it fixes which messages travel and in
+   what order, not how sending and receiving interleave in time.  Model/GrpcConv.v adds a small-step semantics of ONE
+   call with the tasks the real code has (the sender task that ServiceStub._stream_stream starts with
+   asyncio.ensure_future and in which the caller's request generator runs; the caller's response loop; the server-side
+   adapter + handler; two FIFO queues for the transport) where one transition = any enabled task takes a step.  The
+   C11_conversation_* theorems below are about CONVERSATIONAL callers, whose request i+1 depends on response i:
+   for every protocol (request source x handler, any state machines) with a finite sequential dialogue in which the
+   handler is told about the end of the request stream before it finishes, every maximal schedule of the real
+   _stream_stream ends with exactly the dialogue's requests read and responses received, in order, and the handler's
+   status (no deadlock, nothing lost, duplicated or reordered); the final state does not depend on the schedule;
+   without response-dependence the small-step model coincides with [call] for all four helpers; and the structure
+   "send everything first, then read" never completes any protocol whose request source waits for a response
+   (witness: ping-pong).
+   The side condition is exact and is a DEFECT of the pinned tree (known finding C11-K2, found by the tie of this
+   model): grpclib's client raises ProtocolError('Outgoing stream was not ended') when the caller leaves `async with`
+   before the sender task has called stream.end(), so a handler that finishes without reading the request stream to
+   its end makes the caller's outcome depend on the schedule (C11_server_ends_first, C11_server_ends_first_refuted);
+   without that check every finite dialogue completes (C11_conversation_complete_ideal).
+
+   PARTIAL (runtime, exercised by the real calls of harness/props/c11.py only): HTTP/2 framing and flow control (the
+   model's queues are unbounded), grpclib's deadline arithmetic, cancellation (incl. the `except: sending_task.cancel()`
+   arm and a send on a stream the server has already closed), and asyncio itself beyond "any enabled task may step"
+   (the real FIFO ready queue is one of the schedules the theorems quantify over).  The model takes from grpclib only
+   "messages of a stream arrive in order, then the trailer status" plus the send-side checks of grpclib.server.Stream
+   that decide which messages/status reach the caller.
 
    Vocabulary (Proofs/GrpcP.v):
      names_distinct svc    NoDup of the proto method names (protoc guarantees it)
@@ -32,9 +48,22 @@
                            handler is an `async def` returning a message or raising
      expected_obs ...      channel.request got (route of m, cardinality of m, declared classes, resolved
                            kwargs); exactly one handler body ran: m's, with the caller's requests;
-                           the caller got exactly [produced] *)
-From BP Require Import Base.Prelude Model.Grpc.
-From BP Require Import Proofs.GrpcP.
+                           the caller got exactly [produced]
+   Vocabulary (Model/GrpcConv.v):
+     src_act / hdl_act     one resumption of the caller's request generator (end / yield r / await the next response
+                           the caller's loop has seen) / of the server side (done st / send y / recv -> Some r | None)
+     step t s              task t (TSender | TCaller | THandler) takes one step from state s, None when it is blocked
+                           or finished;  run sch s  follows a schedule (list of task names);  stuckb s  no task can step
+     helper_mode h         how helper h is structured: (receives only after sending has finished?, iterates?, grpclib's
+                           client checks that the outgoing stream was ended: true for all four);  ideal_mode  the same
+                           without that check;  kahn_mode cm  no task tests a flag another task sets (check off or vacuous)
+     Dlg ss sf rq hs ib t  the sequential dialogue of the two parties alone ends with transcript
+                           t = (requests read, responses emitted, status, was the handler told - by a read returning
+                           None - that the request stream had ended);  dialogue  the same with fuel (evaluable)
+     observe s             (requests the handler has read, responses the caller has received, how the call ended)
+     s_hend s / s_hdone s  the handler has been told about the end of the request stream / has finished with this status *)
+From BP Require Import Base.Prelude Model.Grpc Model.GrpcConv.
+From BP Require Import Proofs.GrpcP Proofs.GrpcConvP Proofs.GrpcConvSeqP Proofs.GrpcConvRealP Proofs.GrpcConvDlgP Proofs.GrpcConvFunP Proofs.GrpcConvExP.
 From BP Require gen.C11Tables.
 
 (* the stub method of m exists under m's Python name, uses m's route; the mapping sends that route to
@@ -201,6 +230,220 @@ Theorem C11_tables : tables_ok = true.
 Proof. exact tables_agree. Qed.
 Print Assumptions C11_tables.
 
+
+(* ======================================================================================================
+   conversational calls: the small-step model (Model/GrpcConv.v)
+   ====================================================================================================== *)
+
+(* the three tasks of a call commute pairwise, in EVERY state, for every pair of parties, in every mode that is a
+   Kahn network (FIFO channels, blocking reads, no task tests a flag another sets): the client-side end-of-stream
+   check is off, or vacuous because receiving starts only after stream.end() (the three send-first helpers) *)
+Theorem C11_tasks_commute : forall SS HS src_step hdl_step cm single t1 t2 (s s1 s2 : state SS HS),
+  kahn_mode cm = true -> t1 <> t2 ->
+  step SS HS src_step hdl_step cm single t1 s = Some s1 ->
+  step SS HS src_step hdl_step cm single t2 s = Some s2 ->
+  exists s3, step SS HS src_step hdl_step cm single t2 s1 = Some s3 /\
+             step SS HS src_step hdl_step cm single t1 s2 = Some s3.
+Proof. exact step_diamond. Qed.
+Print Assumptions C11_tasks_commute.
+
+(* THE REAL _stream_stream (concurrent sender task + response iteration + grpclib's check that the outgoing stream
+   was ended).  A protocol whose sequential dialogue is finite, with transcript (rd, em, st), and in which the handler
+   is told that the request stream has ended before it finishes (one of its reads returns None: `async for request in
+   request_iterator` handlers are): there are N and ONE state fin, stuck, in which the handler has read exactly rd, the
+   caller has received exactly em and the call has ended with st, such that EVERY schedule has at most N steps, can be
+   continued to fin from wherever it is (no deadlock, no livelock), and every maximal schedule ends exactly in fin *)
+Theorem C11_conversation_complete : forall SS HS src_step hdl_step (ss : SS) (hs : HS) rd em st,
+  Dlg SS HS src_step hdl_step ss false [] hs [] (rd, em, st, true) ->
+  exists N fin,
+    stuckb SS HS src_step hdl_step (helper_mode H_stream_stream) false fin = true /\
+    observe fin = Observed rd em (Some (end_of st)) /\
+    s_hdone fin = Some st /\ s_hend fin = true /\
+    forall sch s', run SS HS src_step hdl_step (helper_mode H_stream_stream) false sch (init ss hs) = Some s' ->
+      (length sch <= N)%nat /\
+      (exists rest, run SS HS src_step hdl_step (helper_mode H_stream_stream) false rest s' = Some fin /\
+                    (length sch + length rest = N)%nat) /\
+      (stuckb SS HS src_step hdl_step (helper_mode H_stream_stream) false s' = true -> s' = fin).
+Proof. exact conversation_complete. Qed.
+Print Assumptions C11_conversation_complete.
+
+(* the same for a client WITHOUT grpclib's check (ideal_mode), for every finite dialogue, told or not: what the
+   concurrent structure of _stream_stream by itself guarantees *)
+Theorem C11_conversation_complete_ideal : forall SS HS src_step hdl_step (ss : SS) (hs : HS) rd em st se,
+  Dlg SS HS src_step hdl_step ss false [] hs [] (rd, em, st, se) ->
+  exists N fin,
+    stuckb SS HS src_step hdl_step (ideal_mode (helper_mode H_stream_stream)) false fin = true /\
+    observe fin = Observed rd em (Some (end_of st)) /\
+    s_hdone fin = Some st /\ s_hend fin = se /\
+    forall sch s', run SS HS src_step hdl_step (ideal_mode (helper_mode H_stream_stream)) false sch (init ss hs) = Some s' ->
+      (length sch <= N)%nat /\
+      (exists rest, run SS HS src_step hdl_step (ideal_mode (helper_mode H_stream_stream)) false rest s' = Some fin /\
+                    (length sch + length rest = N)%nat) /\
+      (stuckb SS HS src_step hdl_step (ideal_mode (helper_mode H_stream_stream)) false s' = true -> s' = fin).
+Proof. exact conversation_complete_ideal. Qed.
+Print Assumptions C11_conversation_complete_ideal.
+
+(* the side condition of C11_conversation_complete is EXACT: when the handler finishes without having been told that
+   the request stream has ended, the real helper has a maximal schedule (the dialogue's own order: the handler moves
+   while it can) in which every request was read and every response delivered in order, the handler ended with st, and
+   the caller's iteration ends with ProtocolError('Outgoing stream was not ended') instead  (known finding C11-K2) *)
+Theorem C11_server_ends_first : forall SS HS src_step hdl_step (ss : SS) (hs : HS) rd em st,
+  Dlg SS HS src_step hdl_step ss false [] hs [] (rd, em, st, false) ->
+  exists sch f,
+    run SS HS src_step hdl_step (helper_mode H_stream_stream) false sch (init ss hs) = Some f /\
+    stuckb SS HS src_step hdl_step (helper_mode H_stream_stream) false f = true /\
+    observe f = Observed rd em (Some CExc) /\ s_hdone f = Some st.
+Proof. exact server_ends_first. Qed.
+Print Assumptions C11_server_ends_first.
+
+(* witness: ping-pong of length 3 whose handler returns right after its third answer.  Two maximal schedules of the
+   real helper, both delivering all three responses in order: sender preferred -> the iteration ends normally;
+   caller preferred -> ProtocolError.  The outcome of the call depends on the schedule. *)
+Theorem C11_server_ends_first_refuted :
+  Dlg tsrc thdl tsrc_step thdl_step (tsrc_init pp3_src) false [] (thdl_init early_hdl None) []
+      ([q x01; q x02; q x03], [a x0b; a x0c; a x0d], None, false) /\
+  (exists f, run tsrc thdl tsrc_step thdl_step (helper_mode H_stream_stream) false early_sched_ok early_init = Some f /\
+             stuckb tsrc thdl tsrc_step thdl_step (helper_mode H_stream_stream) false f = true /\
+             observe f = Observed [q x01; q x02; q x03] [a x0b; a x0c; a x0d] (Some CDone)) /\
+  (exists f, run tsrc thdl tsrc_step thdl_step (helper_mode H_stream_stream) false early_sched_bad early_init = Some f /\
+             stuckb tsrc thdl tsrc_step thdl_step (helper_mode H_stream_stream) false f = true /\
+             observe f = Observed [q x01; q x02; q x03] [a x0b; a x0c; a x0d] (Some CExc)).
+Proof. exact server_ends_first_witness. Qed.
+Print Assumptions C11_server_ends_first_refuted.
+
+(* the final state (hence what both ends observe) does not depend on the schedule: any two maximal schedules
+   from the same state end in the same state after the same number of steps - for EVERY protocol, finite dialogue
+   or not, in every Kahn mode (the three send-first helpers, and _stream_stream without the end check) *)
+Theorem C11_conversation_confluent : forall SS HS src_step hdl_step cm single sch1 sch2 (s f1 f2 : state SS HS),
+  kahn_mode cm = true ->
+  run SS HS src_step hdl_step cm single sch1 s = Some f1 -> stuckb SS HS src_step hdl_step cm single f1 = true ->
+  run SS HS src_step hdl_step cm single sch2 s = Some f2 -> stuckb SS HS src_step hdl_step cm single f2 = true ->
+  f1 = f2 /\ length sch1 = length sch2.
+Proof. exact conv_confluent. Qed.
+Print Assumptions C11_conversation_confluent.
+
+(* ... and if ONE maximal schedule exists, no schedule is longer and every schedule can be continued to its end *)
+Theorem C11_conversation_bounded : forall SS HS src_step hdl_step cm single sch1 sch2 (s f a : state SS HS),
+  kahn_mode cm = true ->
+  run SS HS src_step hdl_step cm single sch1 s = Some f -> stuckb SS HS src_step hdl_step cm single f = true ->
+  run SS HS src_step hdl_step cm single sch2 s = Some a ->
+  (length sch2 <= length sch1)%nat /\
+  exists rest, run SS HS src_step hdl_step cm single rest a = Some f /\ length rest = (length sch1 - length sch2)%nat.
+Proof. exact conv_bounded. Qed.
+Print Assumptions C11_conversation_bounded.
+
+(* the real _stream_stream: if ONE maximal schedule ends with the handler told about the end of the request stream,
+   then no schedule is longer, every schedule can be continued to that final state, and every maximal schedule ends
+   in it - whatever the protocol *)
+Theorem C11_conversation_confluent_real : forall SS HS src_step hdl_step (ss : SS) (hs : HS) sch1 f1,
+  run SS HS src_step hdl_step (helper_mode H_stream_stream) false sch1 (init ss hs) = Some f1 ->
+  stuckb SS HS src_step hdl_step (helper_mode H_stream_stream) false f1 = true -> s_hend f1 = true ->
+  forall sch2 s2, run SS HS src_step hdl_step (helper_mode H_stream_stream) false sch2 (init ss hs) = Some s2 ->
+    (length sch2 <= length sch1)%nat /\
+    (exists rest, run SS HS src_step hdl_step (helper_mode H_stream_stream) false rest s2 = Some f1 /\
+                  (length sch2 + length rest = length sch1)%nat) /\
+    (stuckb SS HS src_step hdl_step (helper_mode H_stream_stream) false s2 = true -> s2 = f1).
+Proof. exact conv_confluent_real. Qed.
+Print Assumptions C11_conversation_confluent_real.
+
+(* what "the sequential dialogue is finite (and the handler is told about the end)" means, exactly: SOME schedule of
+   the real _stream_stream completes the call with the handler told (and then, by the theorems above, every maximal
+   schedule does, with the same result) *)
+Theorem C11_conversation_exact : forall SS HS src_step hdl_step (ss : SS) (hs : HS),
+  (exists rd em st, Dlg SS HS src_step hdl_step ss false [] hs [] (rd, em, st, true)) <->
+  (exists sch f, run SS HS src_step hdl_step (helper_mode H_stream_stream) false sch (init ss hs) = Some f /\
+                 stuckb SS HS src_step hdl_step (helper_mode H_stream_stream) false f = true /\
+                 s_cend f <> None /\ s_hend f = true).
+Proof. exact dlg_exact_real. Qed.
+Print Assumptions C11_conversation_exact.
+
+(* ... and without the end check: finite dialogue <-> some schedule completes the call *)
+Theorem C11_conversation_exact_ideal : forall SS HS src_step hdl_step (ss : SS) (hs : HS),
+  (exists t, Dlg SS HS src_step hdl_step ss false [] hs [] t) <->
+  (exists sch f, run SS HS src_step hdl_step (ideal_mode (helper_mode H_stream_stream)) false sch (init ss hs) = Some f /\
+                 stuckb SS HS src_step hdl_step (ideal_mode (helper_mode H_stream_stream)) false f = true /\ s_cend f <> None).
+Proof. exact dlg_exact. Qed.
+Print Assumptions C11_conversation_exact_ideal.
+
+(* a protocol has at most one transcript; the evaluator with fuel is sound for Dlg (decidable way to establish it) *)
+Theorem C11_dialogue_functional : forall SS HS src_step hdl_step (ss : SS) (hs : HS) t1 t2,
+  Dlg SS HS src_step hdl_step ss false [] hs [] t1 -> Dlg SS HS src_step hdl_step ss false [] hs [] t2 -> t1 = t2.
+Proof. exact dlg_functional. Qed.
+Print Assumptions C11_dialogue_functional.
+
+Theorem C11_dialogue_eval_sound : forall SS HS src_step hdl_step n (ss : SS) sf rq (hs : HS) ib t,
+  dialogue SS HS src_step hdl_step n ss sf rq hs ib = Some t -> Dlg SS HS src_step hdl_step ss sf rq hs ib t.
+Proof. exact dialogue_sound. Qed.
+Print Assumptions C11_dialogue_eval_sound.
+
+(* ... and complete: "finite dialogue" is semi-decided by the evaluator (enough fuel finds it, more fuel agrees) *)
+Theorem C11_dialogue_eval_complete : forall SS HS src_step hdl_step (ss : SS) sf rq (hs : HS) ib t,
+  Dlg SS HS src_step hdl_step ss sf rq hs ib t ->
+  exists n, forall m, (n <= m)%nat -> dialogue SS HS src_step hdl_step m ss sf rq hs ib = Some t.
+Proof. exact dialogue_complete. Qed.
+Print Assumptions C11_dialogue_eval_complete.
+
+(* the helpers that send first and receive afterwards (_unary_unary, _unary_stream, _stream_unary; it = does the
+   caller iterate; chk = the end check, vacuous here): for a request source that yields rs without waiting for a
+   response and a handler that, given the closed stream rs, reads rd, emits em and ends with st, every maximal
+   schedule ends with that transcript (a unary-response caller keeps the first message, or raises the status) *)
+Theorem C11_sequential_helpers_complete : forall SS HS src_step hdl_step it chk single (ss : SS) (hs : HS) rs rd em st,
+  SrcPlain SS src_step ss rs -> HdlRuns HS hdl_step single rs hs false (rd, em, st) ->
+  exists N fin,
+    stuckb SS HS src_step hdl_step (CMode true it chk) single fin = true /\
+    observe fin = Observed rd (fst (seq_result it em st)) (Some (snd (seq_result it em st))) /\
+    forall sch s', run SS HS src_step hdl_step (CMode true it chk) single sch (init ss hs) = Some s' ->
+      (length sch <= N)%nat /\
+      (exists rest, run SS HS src_step hdl_step (CMode true it chk) single rest s' = Some fin /\
+                    (length sch + length rest = N)%nat) /\
+      (stuckb SS HS src_step hdl_step (CMode true it chk) single s' = true -> s' = fin).
+Proof. exact seq_complete. Qed.
+Print Assumptions C11_sequential_helpers_complete.
+
+(* where the request stream does not depend on responses the small-step model coincides with the functional
+   model, for all four cardinalities: the system structured like the helper the stub body names
+   (helper_mode (stub_helper m), end check included), with the response cardinality of the mapping entry, the
+   caller's list as the source and the functional handler behind the adapter rendered for m ([fun_run],
+   Proofs/GrpcConvFunP.v) - every schedule is bounded and can be completed, and every maximal schedule ends with the
+   result, and the handler with the input, that [call] computes *)
+Theorem C11_conversation_agrees_functional : forall svc im skw ckw m h a,
+  names_distinct svc -> owns svc m -> im (m_py m) = Some h ->
+  arg_ok m a -> handler_ok m h (hin_of a) ->
+  (exists N, forall sch s', fun_run m h sch (init (reqs_of a) (FRead [])) = Some s' ->
+     (length sch <= N)%nat /\
+     exists rest f, fun_run m h rest s' = Some f /\ fun_stuckb m h f = true) /\
+  (forall sch f, fun_run m h sch (init (reqs_of a) (FRead [])) = Some f -> fun_stuckb m h f = true ->
+     exists o e, call svc im skw (m_py m) a ckw = Some o /\
+                 s_cend f = Some e /\ ob_res o = CRes (s_recv f) e /\
+                 ob_trace o = [(m_py m, adapter_input (m_cs m) (s_hread f))]).
+Proof. exact conv_agrees_functional. Qed.
+Print Assumptions C11_conversation_agrees_functional.
+
+(* the seeded breaking change (the caller reads responses only after the sender has finished: _stream_unary's
+   sending with _unary_stream's receiving) NEVER completes a call whose request source waits for a response at
+   all, under any schedule, whatever the handler *)
+Theorem C11_send_all_first_never_completes : forall SS HS src_step hdl_step single (ss : SS) (hs : HS),
+  SrcWaits SS src_step ss ->
+  forall sch s, run SS HS src_step hdl_step send_all_first_mode single sch (init ss hs) = Some s ->
+    s_cend s = None /\ s_recv s = [].
+Proof. exact send_all_first_never_completes. Qed.
+Print Assumptions C11_send_all_first_never_completes.
+
+(* witness: ping-pong of length 3 HAS a finite dialogue, yet the variant reaches, after the sender's first request
+   and the handler's first answer, a state in which no task can move, the call has not completed, the caller has
+   received nothing and the answer sits in the response queue; and no schedule of the variant completes it *)
+Theorem C11_send_all_first_deadlocks_refuted :
+  (exists t, Dlg tsrc thdl tsrc_step thdl_step (tsrc_init pp3_src) false [] (thdl_init pp3_hdl None) [] t) /\
+  (exists sch f,
+     run tsrc thdl tsrc_step thdl_step send_all_first_mode false sch (init (tsrc_init pp3_src) (thdl_init pp3_hdl None)) = Some f /\
+     stuckb tsrc thdl tsrc_step thdl_step send_all_first_mode false f = true /\
+     s_cend f = None /\ s_recv f = [] /\ s_hread f = [q x01] /\ s_respq f = [a x0b]) /\
+  (forall sch s,
+     run tsrc thdl tsrc_step thdl_step send_all_first_mode false sch (init (tsrc_init pp3_src) (thdl_init pp3_hdl None)) = Some s ->
+     s_cend s = None /\ s_recv s = []).
+Proof. exact send_all_first_deadlocks. Qed.
+Print Assumptions C11_send_all_first_deadlocks_refuted.
+
 (* ---- non-vacuity ---- *)
 Definition ex_svc := C11Tables.probe_service.
 Example C11_ex_distinct : names_distinct ex_svc /\ pynames_distinct ex_svc /\ length (s_methods ex_svc) = 4%nat.
@@ -248,3 +491,55 @@ Example C11_ex_kwargs_falsy :
   resolve_kwargs (Kw (Some 11) (Some 21) (Some 31)) (Kw (Some 0) None (Some 0)) = Kw (Some 0) (Some 21) (Some 0)
   /\ resolve_kwargs (Kw (Some 11) (Some 21) (Some 31)) (Kw None None None) = Kw (Some 11) (Some 21) (Some 31).
 Proof. split; reflexivity. Qed.
+
+(* ---- non-vacuity of the conversational theorems ---- *)
+(* ping-pong of length 3 (each request after the first is chosen by the response just seen, each response by the
+   request just read) has a finite dialogue: the hypothesis of C11_conversation_complete *)
+Example C11_ex_pingpong3 :
+  Dlg tsrc thdl tsrc_step thdl_step (tsrc_init pp3_src) false [] (thdl_init pp3_hdl None) []
+      ([q x01; q x02; q x03], [a x0b; a x0c; a x0d], None, true).
+Proof. eapply dialogue_sound. exact pp3_dialogue. Qed.
+(* the server speaks first, a burst of two responses, the handler reads to the end and ends with NOT_FOUND (5) *)
+Example C11_ex_server_first :
+  Dlg tsrc thdl tsrc_step thdl_step (tsrc_init greet_src) false [] (thdl_init greet_hdl (Some 5)) []
+      ([q x11; q x12], [a x07; a x21; a x22], Some 5, true).
+Proof. eapply dialogue_sound. exact greet_dialogue. Qed.
+(* the hypothesis is not trivial: a protocol in which each side waits for the other has no dialogue *)
+Example C11_ex_no_dialogue :
+  ~ exists t, Dlg tsrc thdl tsrc_step thdl_step (tsrc_init stall_src) false [] (thdl_init stall_hdl None) [] t.
+Proof. exact stall_no_dialogue. Qed.
+(* the _stream_stream system evaluated under three different schedulers gives those transcripts *)
+Example C11_ex_schedules :
+  option_map observe (table_system (helper_mode H_stream_stream) false 80 [0%nat] pp3_src pp3_hdl None)
+    = Some (Observed [q x01; q x02; q x03] [a x0b; a x0c; a x0d] (Some CDone)) /\
+  option_map observe (table_system (helper_mode H_stream_stream) false 80 [2%nat; 1%nat] pp3_src pp3_hdl None)
+    = Some (Observed [q x01; q x02; q x03] [a x0b; a x0c; a x0d] (Some CDone)) /\
+  option_map observe (table_system (helper_mode H_stream_stream) false 80 [1%nat; 0%nat; 2%nat; 2%nat] greet_src greet_hdl (Some 5))
+    = Some (Observed [q x11; q x12] [a x07; a x21; a x22] (Some (CGrpc 5))).
+Proof. exact pp3_system_schedules. Qed.
+(* the ping-pong source waits for a response (hypothesis of C11_send_all_first_never_completes) *)
+Example C11_ex_src_waits : SrcWaits tsrc tsrc_step (tsrc_init pp3_src).
+Proof. eapply SW_later; [reflexivity|]. eapply SW_now. reflexivity. Qed.
+(* hypotheses of C11_sequential_helpers_complete: a list source, a handler that reads two requests and answers *)
+Example C11_ex_sequential :
+  SrcPlain (list msg) list_src_step [q x01; q x02] [q x01; q x02] /\
+  HdlRuns thdl thdl_step false [q x01; q x02] (thdl_init [HI_recv; HI_yield (a x01); HI_recv; HI_recv; HI_yield (a x02)] None) false
+          ([q x01; q x02], [a x01; a x02], None).
+Proof.
+  split; [apply list_src_plain|].
+  eapply HR_recv; [reflexivity|]. eapply HR_yield; [reflexivity | reflexivity|].
+  eapply HR_recv; [reflexivity|]. eapply HR_recv_end; [reflexivity|].
+  eapply HR_yield; [reflexivity | reflexivity|].
+  exact (HR_done thdl thdl_step false [] ([], None, None) true None eq_refl).
+Qed.
+(* a finite dialogue in which the handler is NOT told about the end (hypothesis of C11_server_ends_first) *)
+Example C11_ex_server_ends_first :
+  Dlg tsrc thdl tsrc_step thdl_step (tsrc_init pp3_src) false [] (thdl_init early_hdl None) []
+      ([q x01; q x02; q x03], [a x0b; a x0c; a x0d], None, false).
+Proof. eapply dialogue_sound. exact early_dialogue. Qed.
+(* the real helpers are Kahn modes except _stream_stream (hypothesis of C11_tasks_commute / _confluent / _bounded) *)
+Example C11_ex_kahn_modes :
+  kahn_mode (helper_mode H_unary_unary) = true /\ kahn_mode (helper_mode H_unary_stream) = true /\
+  kahn_mode (helper_mode H_stream_unary) = true /\ kahn_mode (helper_mode H_stream_stream) = false /\
+  kahn_mode (ideal_mode (helper_mode H_stream_stream)) = true.
+Proof. repeat split; reflexivity. Qed.
